@@ -65,6 +65,8 @@ package handlers
 //@   ensures allNonNil(res)
 //@   ensures decisionCount == old(decisionCount) || decisionCount == old(decisionCount) + 1
 //@   ensures decisionCount == old(decisionCount) ==> subset(res, endpoints)
+// model routing is consulted exactly when the request names a model (and a registry is there)
+//@   ensures (decisionCount == old(decisionCount) + 1) == (profile != nil && old(profile.ModelName) != "" && a.modelRegistry != nil)
 //@   ensures decisionCount == old(decisionCount) && profile != nil && old(anyCompatible(endpoints, profile.SupportedBy)) && old(len(profile.SupportedBy)) > 0 ==> forall k int :: 0 <= k && k < len(res) ==> old(epCompatible(res[k], profile.SupportedBy))
 //@   ensures decisionCount == old(decisionCount) + 1 && lastDecision != nil ==> profile != nil && profile.RoutingDecision == lastDecision
 //@   ensures decisionCount == old(decisionCount) + 1 && lastDecision != nil && lastDecision.Action == "rejected" ==> len(res) == 0
